@@ -6,10 +6,21 @@ import os, subprocess, sys, shutil, tomllib, json, time
 ROOT = os.path.dirname(os.path.dirname(os.path.abspath(__file__)))
 def main():
     args = [a for a in sys.argv[1:] if not a.startswith("--")]
+    if "--property" in sys.argv:
+        pv = sys.argv[sys.argv.index("--property") + 1]
+        args = [a for a in args if a != pv]
     repo = "/repo"
-    if "--repo" in sys.argv: repo = sys.argv[sys.argv.index("--repo") + 1]
+    if "--repo" in sys.argv:
+        repo = sys.argv[sys.argv.index("--repo") + 1]
+        args = [a for a in args if a != repo]
+    if "--json" in sys.argv:
+        args = [a for a in args if a != sys.argv[sys.argv.index("--json") + 1]]
     ms = tomllib.load(open(os.path.join(ROOT, "contracts/mutants.toml"), "rb"))["mutant"]
     if args: ms = [m for m in ms if any(a in m["id"] for a in args)]
+    if "--property" in sys.argv:
+        pr = sys.argv[sys.argv.index("--property") + 1]
+        ms = [m for m in ms if m["property"] == pr]
+        args = [a for a in args if a != pr]
     base = os.environ.get("VERIF_SCRATCH", "/var/tmp")
     sc = os.path.join(base, f"verif-mut-{os.getpid()}")
     bad = 0
@@ -32,12 +43,16 @@ def main():
             ok = r.returncode == 0 and not hit
         else:
             ok = r.returncode == 1 and any(m["expect"] in l for l in hit)
-        results.append({"id": m["id"], "killed": ok, "rc": r.returncode})
+        results.append({"id": m["id"], "ok": ok, "kind": "harmless" if m["expect"] == "HARMLESS" else "breaking", "rc": r.returncode, "undecided": r.returncode == 2,
+                        "obligation": (hit[0].split("replay=")[1].split("/")[-1].split(".json")[0] if hit else None)})
         print(f"MUTANT {m['id']}: {('quiet' if m['expect']=='HARMLESS' else 'killed') if ok else ('FALSE-ALARM' if m['expect']=='HARMLESS' else 'SURVIVED')} rc={r.returncode} {time.time()-t0:.1f}s {' | '.join(hit)[:200]}")
         if not ok:
             bad += 1
             print(r.stdout[-800:], r.stderr[-800:])
     shutil.rmtree(sc, ignore_errors=True)
-    json.dump(results, open(os.path.join(ROOT, "build", "mutants.json"), "w"), indent=1)
+    out = os.path.join(ROOT, "build", "mutants.json")
+    if "--json" in sys.argv:
+        out = sys.argv[sys.argv.index("--json") + 1]
+    json.dump(results, open(out, "w"), indent=1)
     return 1 if bad else 0
 sys.exit(main())
